@@ -61,6 +61,9 @@ def gen_case(rng, tier):
                           "xz_nt", "gz_nt", "gz_turtle_rel"])
     endpoint = channel.startswith("endpoint")
     kinds = ("node", "str", "int", "iri", "iri2") if (endpoint or channel == "turtle_iter") else ("node", "str", "int", "lang", "date", "iri", "iri2", "cdt")
+    deep = channel == "endpoint_deep" or (channel == "endpoint_off" and rng.random() < 0.35)
+    if deep:
+        kinds = ("node", "node", "node", "str", "iri")    # many links between nodes: the exploration frontier holds several neighbours
     n_nodes = rng.choice([3, 4, 6, 8, 10]) if tier == "quick" else rng.choice([3, 4, 6, 8, 10, 16, 24])
     clash = channel == "turtle" and rng.random() < 0.5    # the document binds the caller's usual labels to other vocabularies
     # tie-prone graphs: few distinct structures, so that equally frequent constraints abound
@@ -89,6 +92,16 @@ def gen_case(rng, tier):
         # neighbours of the selected nodes are explored too (depth 2; endpoint answers count as IRIs only with strict
         # corners) and become instances themselves through all_classes_mode
         target = {"shape_map_raw": gen.gen_shape_map(rng, triples, type_prop=tp), "all_classes_mode": True}
+        if rng.random() < 0.5:
+            # one selected hub whose neighbours each belong to a class of their own: the classes are first met in the
+            # order in which the frontier of the exploration is walked
+            hub = gen.iri(gen.EX + "hub")
+            triples = list(triples)
+            for j in range(rng.randint(3, 5)):
+                nb = gen.iri(gen.EX + "nb%d" % j)
+                triples += [(hub, gen.iri(gen.EX + "link"), nb), (nb, gen.iri(tp), gen.iri(gen.EX + "K%d" % j)),
+                            (nb, gen.iri(gen.EX + "q%d" % j), gen.lit("v%d" % j, gen.XSD + "string"))]
+            target = {"shape_map_raw": "<%shub>@<http://sh.org/H>" % gen.EX, "all_classes_mode": True}
     elif channel == "shape_map_local":
         target = {"shape_map_raw": gen.gen_shape_map(rng, triples, type_prop=tp)}
     elif channel == "gz_turtle_rel":
@@ -110,7 +123,7 @@ def gen_case(rng, tier):
     if channel == "endpoint_deep":
         options["depth_for_building_subgraph"] = 2
         options["strict_syntax_with_corners"] = True
-    if channel == "endpoint_off" and rng.random() < 0.35:
+    if channel == "endpoint_off" and deep:
         # neighbours of neighbours are explored too; endpoint answers count as IRIs only with strict corners
         options["depth_for_building_subgraph"] = 2
         options["strict_syntax_with_corners"] = True
